@@ -65,15 +65,20 @@ impl<T> Block<T> {
         unsafe { MaybeUninit::zeroed().assume_init() }
     }
 
-    // Gets the length of the next block, if it exists.
-    pub(crate) fn next_len(&self, guard: &Guard) -> usize {
+    // Whether or not the next block, if it exists, has had no slot claimed yet.
+    fn next_is_unclaimed(&self, guard: &Guard) -> bool {
         let tail = self.next.load(Ordering::Acquire, guard);
         if tail.is_null() {
-            return 0;
+            return true;
         }
 
         let tail_block = unsafe { tail.deref() };
-        tail_block.len()
+        tail_block.is_unclaimed()
+    }
+
+    // Whether or not no writer has claimed a slot in this block yet.
+    fn is_unclaimed(&self) -> bool {
+        self.write.load(Ordering::Acquire) == 0
     }
 
     /// Gets the current length of this block.
@@ -212,10 +217,14 @@ impl<T> AtomicBucket<T> {
 
         // We have to check the next block of our tail in case the current tail is simply a fresh
         // block that has not been written to yet.
+        //
+        // Emptiness is decided on claimed slots rather than on the length of the published prefix:
+        // a completed write can sit behind a lower slot whose write is still in flight, in which
+        // case the published prefix is empty although the bucket is not.
         let tail_block = unsafe { tail.deref() };
         #[cfg(metrics_verif)]
         metrics::verif::point("bkt.empty.len");
-        tail_block.len() == 0 && tail_block.next_len(guard) == 0
+        tail_block.is_unclaimed() && tail_block.next_is_unclaimed(guard)
     }
 
     /// Pushes an element into the bucket.
